@@ -142,10 +142,18 @@ func (c *AppenderRefs) sortByLevel() {
 		return iCode < jCode
 	})
 
-	// Adjust MaxLevel to match the next appender's MinLevel if needed
-	for i := len(c.AppenderRefs) - 1; i >= 1; i-- {
-		if c.AppenderRefs[i-1].Level.MaxLevel == MaxLevel {
-			c.AppenderRefs[i-1].Level.MaxLevel = c.AppenderRefs[i].Level.MinLevel
+	// An open-ended range ends where the next strictly higher MinLevel begins.
+	// References sharing the same MinLevel therefore share the same range
+	// (chaining to the adjacent reference would leave them an empty one).
+	for i := len(c.AppenderRefs) - 2; i >= 0; i-- {
+		if c.AppenderRefs[i].Level.MaxLevel != MaxLevel {
+			continue
+		}
+		for j := i + 1; j < len(c.AppenderRefs); j++ {
+			if c.AppenderRefs[j].Level.MinLevel.code > c.AppenderRefs[i].Level.MinLevel.code {
+				c.AppenderRefs[i].Level.MaxLevel = c.AppenderRefs[j].Level.MinLevel
+				break
+			}
 		}
 	}
 }
